@@ -361,3 +361,63 @@ def p1c(prog):
     if n < 15:
         raise Broken("only %d pushing next() overrides found (floor 15)" % n)
     return inst, findings
+
+
+class _Sel:
+    def on_store(self, name, val):
+        return val & 0xffffffff if isinstance(val, int) else val
+
+
+def p4(prog, tier="quick"):
+    """overload selection looks at exactly the top n value types: selector{t1..tn}.matches(selector{stack}) iff the stack is at
+    least n deep and its top n types are t1..tn with tn on top (abstract evaluation of the selector's shift arithmetic)"""
+    from absint import Evaluator
+    import itertools
+    inst, findings = [], []
+    ctors = {}
+    for f in prog.funcs.values():
+        if f.get("cls") == "selector" and f.get("isctor") and f["q"].startswith("selector::selector<") and \
+           all(p["t"] == "value_type" for p in f["params"]) and f["params"]:
+            ctors[len(f["params"])] = f
+    sctor = [f for f in prog.funcs.values() if f.get("cls") == "selector" and f.get("isctor") and len(f["params"]) == 1 and "stack" in f["params"][0]["t"]]
+    m = prog.func_opt("selector::matches")
+    if not ctors or len(sctor) != 1 or m is None:
+        raise Broken("selector constructors / matches not found")
+    w = prog.globals.get("selector::W")
+    W = (w.get("init") or {}).get("iv") if w else None
+    hooks = {"value_type::code": lambda ev, o, a: o._code,
+             "stack::profile": lambda ev, o, a: o.m_profile}
+    ev = Evaluator(hooks, {"selector::W": W}, ptr_lt=True, prog=prog)
+    codes = (1, 2, 3)
+    n_eval = 0
+    bad = None
+    stacks = [()]
+    for d in range(1, (W + 2) if tier == "thorough" else (W + 1)):
+        stacks += list(itertools.product(codes, repeat=d))
+    if tier != "thorough":
+        stacks = [s for s in stacks if len(s) <= 4 or s[0] == 1]
+    prof = {}
+    for st in stacks:
+        so = _Stack()
+        v = 0
+        for d in range(min(W, len(st))):
+            v |= st[-1 - d] << (8 * d)
+        so.m_profile = v        # the invariant P2b establishes
+        sel = _Sel()
+        ev.construct(sctor[0], sel, [so])
+        prof[st] = sel
+    for n, cf in sorted(ctors.items()):
+        for types in itertools.product(codes, repeat=n):
+            sel = _Sel()
+            ev.construct(cf, sel, [_TypeObj(c) for c in types])
+            for st in stacks:
+                n_eval += 1
+                got = bool(ev.call(m, sel, [prof[st]]))
+                want = len(st) >= n and tuple(st[-n:]) == types
+                if got != want and bad is None:
+                    bad = "selector%s %s a stack with types %s (bottom..top)" % (types, "matches" if got else "does not match", st)
+    inst.append(("P4:selector::matches", {"arities": sorted(ctors), "selector_x_stack_pairs": n_eval, "W": W}))
+    if bad:
+        findings.append({"key": "P4:selector::matches", "where": "libzwerg/selector.hh",
+                         "msg": "overload selection no longer looks at exactly the top n value types: %s" % bad, "detail": None})
+    return inst, findings
